@@ -117,7 +117,16 @@ pub fn bases(tier: Tier) -> Vec<Base> {
     let mut v = vec![Base { site: Site::new(39.0, -77.0, 0.0, -5.0), date: ymd(2023, 2, 6), params: params_conv(Method::Mwl) }];
     // flagged (extreme) times: the flag must survive rounding
     v.push(Base { site: Site::new(55.0, 25.0, 0.0, 2.0), date: ymd(2024, 6, 21), params: params(Method::Egyptian, ExtremeLatitudeMethod::SeventhOfNightFajrIshaAlways, RoundSeconds::None) });
+    // Imsaak defined by a (non-integer) interval before Fajr, and Fajr by an interval before Shurooq:
+    // the other two Imsaak code paths must round their own unrounded time as well
+    let mut pi = params_conv(Method::Egyptian);
+    pi.intervals.insert(Prayer::Imsaak, 7.5);
+    v.push(Base { site: Site::new(47.4, 8.5, 0.0, 1.0), date: ymd(2031, 10, 19), params: pi });
     if tier == Tier::Thorough {
+        let mut pf = params_conv(Method::Mwl);
+        pf.intervals.insert(Prayer::Fajr, 81.25);
+        pf.intervals.insert(Prayer::Imsaak, 12.25);
+        v.push(Base { site: Site::new(-36.8, 174.8, 0.0, 12.0), date: ymd(1987, 5, 6), params: pf });
         // invalid entries stay invalid
         v.push(Base { site: Site::new(70.0, 25.0, 0.0, 2.0), date: ymd(2024, 12, 21), params: params_conv(Method::Isna) });
         v.push(Base { site: Site::new(-33.9, 151.2, 0.0, 10.0), date: ymd(2024, 2, 29), params: params_conv(Method::UmmAlQurra) });
